@@ -24,7 +24,8 @@ EXPLANATION = (
     'the confinement rows rely on (start parameters written before `search = true` under the mutex, stop waited for before protocol '
     'state is touched, workers initialised before use, TT geometry changed only before helpers are started, contempt hash written by '
     'thread 0 only); plus a frozen set of static-storage variables written after start-up. Every field of the listed classes must '
-    'have a row (new fields fail until classified).')
+    'have a row (new fields fail until classified).'
+    ' The options hand-over (waitOptionsSet returning) is decided by the completion-flag typestate: optionsSetFinished is set only under the mutex with the pending queue and every swapped-out batch known empty.')
 UNDECIDED = ('absence of races in the C++ memory-model sense for the whole engine (needs dynamic happens-before tracking); rows marked '
              'HB-protocol rely on message-protocol ordering that is listed, not proved; maxSubDTM/maxDTM lazy maps are not judged '
              '(6/7-men tablebase files needed to reach the insertion).')
